@@ -104,6 +104,7 @@ type C09Case struct {
 	Subset uint   `json:"subset"`
 	Class  string `json:"class"`
 	Prime  string `json:"prime,omitempty"`
+	Umask  int    `json:"umask,omitempty"` // top-level umask setting (0 = unset)
 }
 
 func setPath(d map[string]any, key string, v any) {
@@ -158,6 +159,15 @@ func init() {
 							return
 						}
 					}
+					if class == "normal" {
+						// script members keep their modes whatever umask is configured for the contents
+						full := uint(1)<<uint(n) - 1
+						for _, um := range []int{0o002, 0o022, 0o027, 0o077, 0o777} {
+							if !yield(C09Case{Format: f, Subset: full, Class: class, Umask: um}) {
+								return
+							}
+						}
+					}
 					if class == "normal" || class == "nonl" {
 						// the same slots, after a build of the same configuration with other script contents
 						for _, s := range subs[1:] {
@@ -188,6 +198,9 @@ func checkC09(env *engine.Env, ci any) engine.Outcome {
 	slots := scriptSlots[c.Format]
 	d := map[string]any(Setting{Name: "default"}.doc(nil, t.Root))
 	delete(d, "contents")
+	if c.Umask != 0 {
+		d["umask"] = c.Umask
+	}
 	want := map[string][]byte{}
 	var names []string
 	for i, s := range slots {
@@ -199,7 +212,7 @@ func checkC09(env *engine.Env, ci any) engine.Outcome {
 		names = append(names, s.Target)
 	}
 	out.Nontrivial = len(want) > 0
-	out.Key = c.Format + ":" + c.Class + ":" + c.Prime + ":" + strings.Join(names, ",")
+	out.Key = fmt.Sprintf("%s:%s:%s:%o:%s", c.Format, c.Class, c.Prime, c.Umask, strings.Join(names, ","))
 	if c.Prime != "" {
 		if err := writeScripts(t, c.Format, c.Prime); err != nil {
 			out.HarnessError = err.Error()
@@ -214,7 +227,7 @@ func checkC09(env *engine.Env, ci any) engine.Outcome {
 	}
 	viol := func(sig, format string, a ...any) {
 		out.Violations = append(out.Violations, engine.Violation{Sig: sig,
-			Detail: fmt.Sprintf("format=%s class=%s primed-with=%q configured slots=%v\n", c.Format, c.Class, c.Prime, names) + fmt.Sprintf(format, a...)})
+			Detail: fmt.Sprintf("format=%s class=%s primed-with=%q umask=%#o configured slots=%v\n", c.Format, c.Class, c.Prime, c.Umask, names) + fmt.Sprintf(format, a...)})
 	}
 	data, err := buildYAML(fixture.Doc(d).YAML(), c.Format)
 	if err != nil {
